@@ -73,7 +73,8 @@ def class_source(c, classes):
         lines.append('        data_class = InMemoryData')
     if c['data'] == 'listnumpy':
         lines.append('        data_class = ListOfNumpyData')
-    lines.append(f"    def run(self) -> {ret}:")
+    sig = ''.join(f', {a}' for a in c.get('runargs', []))
+    lines.append(f"    def run(self{sig}) -> {ret}:")
     if c['data'] == 'dir':
         # a directory result with nested content: the provenance term in a file, and a subdirectory
         lines.append("        d = self.get_data_object()")
@@ -287,9 +288,10 @@ def cclass(c, by_id):
         cref(i['ref'], by_id), cbool(i['default'] is None), cspec(i['default'][0]) if i['default'] is not None else 'VNone')
         for i in c['param_inputs']])
     return ('{| c_slug := %s; c_abstract := %s; c_params := %s; c_meta_inputs := %s; c_param_inputs := %s; '
-            'c_data := %s; c_runargs := [] |}' % (
+            'c_data := %s; c_runargs := %s |}' % (
                 cstr(slug_of(c)), cbool(bool(c.get('abstract'))), clist([cdecl(d) for d in c['params']]),
-                clist([cref(r, by_id) for r in c['meta_inputs']]), pins, DKINDS[c['data']]))
+                clist([cref(r, by_id) for r in c['meta_inputs']]), pins, DKINDS[c['data']],
+                clist([cstr(a) for a in c.get('runargs', [])])))
 
 
 def cdoc(doc, mod):
